@@ -34,6 +34,10 @@ Check C17_oracle_accepts_model : forall (exact : bool) (sc1 sc2 : Q) (l : list Q
 
 Check C17_oracle_sound : forall c : case, corr_b c = true -> prop_b c = true.
 
+Check C17_persist_invariant : forall ops s,
+  fold_left ds_step ops s = fold_left ds_update (dvals ops) s.
+Check eq_refl : dvals [DUpd 0%Qc; DPersist; DUpd 1%Qc] = [0%Qc; 1%Qc].
+
 (* the definitions the statements rest on, pinned by evaluation *)
 Definition q (n : Z) (d : positive) : Qc := Q2Qc (n # d).
 Check eq_refl : this (calc_mean (q 1 1) (q 4 1) (q 3 1)) = (2 # 1)%Q.
